@@ -52,6 +52,14 @@ def gen(rng, tier):
     for _ in range(n // 2):
         s = G.rand_sig(rng, 2)
         yield G.case_de_s("--", rng.random() < 0.5, rng.randint(0, 9), 2, G.sigstr(s), bytes(rng.randrange(256) for _ in range(rng.randint(0, 24))))
+    # valid-looking encodings around the nesting limits (limits counted across variant boundaries too)
+    for w in G.limit_words():
+        if not w:
+            continue
+        t = G.tower(w)
+        big = rng.random() < 0.5
+        b, _ = G.marshal(('v', t), big, 0)
+        yield G.case_de_v("--", big, 0, 0, b)
     for w in G.wide_values():
         big = rng.random() < 0.5
         b, _ = G.marshal(('v', w), big, 0)
